@@ -249,3 +249,13 @@ def literals(test, polarity):
                 out.extend(literals(v, False))
             return out
     return [(test, polarity)]
+
+
+def int_const(node):
+    """Integer value of a literal, including negative literals (-1); None otherwise."""
+    if isinstance(node, ast.Constant) and isinstance(node.value, int) and not isinstance(node.value, bool):
+        return node.value
+    if isinstance(node, ast.UnaryOp) and isinstance(node.op, ast.USub) and isinstance(node.operand, ast.Constant) \
+            and isinstance(node.operand.value, int):
+        return -node.operand.value
+    return None
